@@ -119,16 +119,12 @@ Definition upd_epoch (q : Z) (es : Q) (t : list (Z * Q)) : list (Z * Q) :=
   | Some old => if Qlt_b es old then (q, es) :: t else t
   end.
 
-(* frequency_stats, reduced to what can escape: float(dur_cycles) / dur and
-   float(gap_cycles) / (ts - ts of the queue's previous Exec slice) *)
+(* frequency_stats, reduced to what can escape: float(dur_cycles) / dur (the second division,
+   float(gap_cycles) / (ts - ts of the queue's previous Exec slice), is guarded since /repo fix C02d) *)
 Definition fstat (le : list (Z * Q)) (e : ev) : res (list (Z * Q)) :=
   if contains "Cmpt Exec" (e_name e) then
     if Qeq_b (e_dur e) 0 then Err "ZeroDivisionError"
-    else match lookup (qid_of (e_pid e)) le with
-         | Some t0 => if Qeq_b (e_ts e) t0 then Err "ZeroDivisionError"
-                      else Ok ((qid_of (e_pid e), e_ts e) :: le)
-         | None => Ok ((qid_of (e_pid e), e_ts e) :: le)
-         end
+    else Ok ((qid_of (e_pid e), e_ts e) :: le)    (* gap_time = 0 no longer divides (fix C02d): dur_freq is used *)
   else Ok le.
 
 Record st : Type := mkst {
